@@ -354,3 +354,73 @@ Example C06_example_write_under_way :
             (mkWr 1 (Some (mkMsg 2 72 [])) 1 [] []))
   = [mkMsg 2 72 []; mkMsg 1 72 []; mkMsg 1 72 []; mkMsg 1 2 []].
 Proof. vm_compute. reflexivity. Qed.
+
+(* ---- a negotiation message that gets no answer -------------------------------------------------
+   "settles on the lower of its own maximum and the reader's maximum (1.0.1 if the reader REJECTS the
+   query as an unsupported version)": without an answer the reader's maximum is not known and
+   nothing was rejected.  Each reaction now comes with its arrival (Negotiate.arrival): InTime,
+   Never (the link may well stay alive: KEEPALIVEs go on being acknowledged, k1 / k2 of them), or
+   AfterGivingUp (later than any client timeout allows).  A client with a timeout (has_timeout)
+   stops waiting; one without waits for as long as the connection lasts (first component of
+   session_t's result = still waiting). *)
+
+(* the query left unanswered: Connect does not succeed — it FAILS for a client with a timeout and
+   is still waiting for one without —, the version is still the configured maximum, the query is
+   the only negotiation message written, nothing is written afterwards; whatever else happens
+   (keep-alives at any point, held back or not, any reaction to the second message, any traffic
+   that callers would like to send) *)
+Theorem unanswered_query_never_succeeds : forall cfg to cmax k1 d1 k2 d2 t1 t2 evs,
+  V1_0_1 < cmax -> unanswered to t1 ->
+  let s := session_t cfg to cmax k1 d1 k2 d2 t1 t2 evs in
+  ~ connect_succeeds s /\ fst s = negb to /\ n_outcome (fst (snd s)) = Fails /\
+  n_version (fst (snd s)) = cmax /\
+  neg_frames_only (n_frames (fst (snd s))) = [mkMsg V1_1 MsgGetSupportedVersion []] /\
+  p_out (snd (snd s)) = [].
+Proof. exact unanswered_query. Qed.
+Print Assumptions unanswered_query_never_succeeds.
+
+(* the switch left unanswered (the query was answered in time and called for it): the same *)
+Theorem unanswered_switch_never_succeeds : forall cfg to cmax k1 d1 k2 d2 r1 t2 evs,
+  switch_needed cmax r1 = true -> unanswered to t2 ->
+  let s := session_t cfg to cmax k1 d1 k2 d2 (InTime, r1) t2 evs in
+  ~ connect_succeeds s /\ fst s = negb to /\ n_outcome (fst (snd s)) = Fails /\ p_out (snd (snd s)) = [].
+Proof. exact unanswered_switch. Qed.
+Print Assumptions unanswered_switch_never_succeeds.
+
+(* conversely, a Connect that succeeds has had a usable answer to every negotiation message it sent *)
+Theorem successful_connect_was_answered : forall cfg to cmax k1 d1 k2 d2 t1 t2 evs, V1_0_1 < cmax ->
+  connect_succeeds (session_t cfg to cmax k1 d1 k2 d2 t1 t2 evs) ->
+  exists r1, experienced to t1 = Some r1 /\ r1 <> NoReply /\
+             (switch_needed cmax r1 = true -> exists r2, experienced to t2 = Some r2 /\ r2 <> NoReply).
+Proof. exact success_means_answered. Qed.
+Print Assumptions successful_connect_was_answered.
+
+(* for a client without a timeout a slow reply is a reply like any other; with replies in time
+   session_t is session_kd: every clause above carries over *)
+Theorem slow_reply_is_a_reply : forall cfg cmax k1 d1 k2 d2 r1 r2 a1 a2 evs, a1 <> Never -> a2 <> Never ->
+  session_t cfg false cmax k1 d1 k2 d2 (a1, r1) (a2, r2) evs
+  = (false, session_kd cfg cmax k1 d1 k2 d2 r1 r2 evs).
+Proof. exact slow_reply_no_timeout. Qed.
+Print Assumptions slow_reply_is_a_reply.
+
+Theorem replies_in_time_is_session_kd : forall cfg to cmax k1 d1 k2 d2 r1 r2 evs,
+  session_t cfg to cmax k1 d1 k2 d2 (InTime, r1) (InTime, r2) evs
+  = (false, session_kd cfg cmax k1 d1 k2 d2 r1 r2 evs).
+Proof. exact in_time_is_session_kd. Qed.
+Print Assumptions replies_in_time_is_session_kd.
+
+(* client 1.1 with a timeout; the reader (current = max = 1.1) answers the query too late and keeps
+   the link alive with three KEEPALIVEs meanwhile: Connect fails, the version is still 1.1 *)
+Example C06_example_late_answer :
+  session_t (mkCfg true true) true V1_1 3 0 0 0 (AfterGivingUp, Resp 64 64 0) (InTime, Resp 0 0 0) [PRequest 2 []]
+  = (false, (mkRes [mkMsg 2 46 []; mkMsg 2 72 []; mkMsg 2 72 []; mkMsg 2 72 []] Fails 2, mkPost 2 [])).
+Proof. vm_compute. reflexivity. Qed.
+(* the same reader and a client without a timeout: merely slow; and a switch that is never answered *)
+Example C06_example_slow_answer :
+  session_t (mkCfg true true) false V1_1 3 0 0 0 (AfterGivingUp, Resp 64 64 0) (InTime, Resp 0 0 0) [PRequest 2 []]
+  = (false, (mkRes [mkMsg 2 46 []; mkMsg 2 72 []; mkMsg 2 72 []; mkMsg 2 72 []] Proceeds 2, mkPost 2 [mkMsg 2 2 []])).
+Proof. vm_compute. reflexivity. Qed.
+Example C06_example_unanswered_switch :
+  session_t (mkCfg true true) false V1_1 0 0 2 0 (InTime, Resp 64 32 0) (Never, NoReply) [PRequest 2 []]
+  = (true, (mkRes [mkMsg 2 46 []; mkMsg 2 47 [1]; mkMsg 1 72 []; mkMsg 1 72 []] Fails 1, mkPost 1 [])).
+Proof. vm_compute. reflexivity. Qed.
